@@ -37,14 +37,9 @@ VECS = [(4096, 1, 1), (1, 4096, 1), (1, 1, 1, 4096)]
 EXT = {'N': '.nii', 'P': '.img', 'M': '.mgh', 'A': '.img'}
 
 S_C09B = ('get_fdata() of an image whose cached array is the memory map of a plain file (float64 NIfTI) that a later '
-          'save has overwritten with a shorter file: SIGBUS when the data exceed a page (silently different values '
-          'otherwise); inherent to mmap; also reached through the SAME image after set_data_dtype + save onto its own file')
-S_C09C = ('after a save onto the file the image was lazily loaded from that changes the on-disk dtype (set_data_dtype) or '
-          'the scale factors (a scaled integer file is re-scaled by the writer), the image keeps its old array proxy: later '
-          'reads raise OSError (narrower dtype) or silently return garbage (wider dtype / other slope, inter); the file '
-          'written is correct')
-
-
+          'save of ANOTHER image object has overwritten with a shorter file: SIGBUS when the data exceed a page (silently '
+          'different values otherwise); inherent to mmap (the same image saving onto its own file drops its caches '
+          'since 29b7b6ce)')
 # --------------------------------------------------------------------------- platform / source facts
 FACTS = {}
 
@@ -128,7 +123,7 @@ def gen_tables():
            'Definition platform_cfg (n : Z) (paths : list pinfo) (fids : list nat) (fx : bool)',
            '    (scale : list (fmt * dtype * nat * nat)) (mixed lowdim : bool) : cfg :=',
            '  mkCfg n platform_page paths fids platform_off platform_foot platform_conv fx scale platform_nointer',
-           '        mixed lowdim true.', '']
+           '        mixed lowdim true true.', '']
     p = os.path.join(common.COQ, 'C09', 'Tables.v')
     new = '\n'.join(txt)
     if not os.path.exists(p) or open(p).read() != new:
@@ -240,7 +235,7 @@ def model_line(hid, cfgname, shape, imgs, ops, facts, fix=1, shift=0):
     conv = ';'.join(f'{a}:{b}:{d}:{r}' for a, b, d, r in facts['conv']) or '-'
     rows, _ = scale_table(shape, shift)
     scale = ';'.join(f'{f}:{d}:{v}:{k}' for f, d, v, k in rows) or '-'
-    flags = f"{int(shift != 0)}{int(len(shape) < 3)}1"
+    flags = f"{int(shift != 0)}{int(len(shape) < 3)}11"
     return (f"{hid} run {fix} {facts['page']} {n} " + ','.join(str(facts['off'][k]) for k in 'NPMA') + ' ' +
             ','.join(str(facts['foot'][k]) for k in 'NPMA') + ' ' + conv + ' ' + scale + ' ' +
             ''.join(str(int(facts['nointer'][k])) for k in 'NPMA') + ' ' + flags + ' ' +
@@ -567,18 +562,14 @@ def run(chk: Check):
         if r['status'] == 'crashed':
             kc, sig = r['crash']
             info = r['info'].get(kc, '')
-            if itoks[kc] == 'crash' and ops[kc][0] == 'F' and 'rewritten=' in info:
+            if itoks[kc] == 'crash' and ops[kc][0] == 'F' and 'rewritten=other' in info:
                 n_crash_known += 1
                 chk.known('S-C09b', S_C09B)
                 chk.tagc('known:S-C09b:' + info.split('rewritten=')[1])
             else:
                 fails.append(f'the interpreter died at step {kc} ({ops[kc]}): {sig}')
-        for kp, what, sig in r['pred']:
-            if what.startswith('unusable') and sig in ('own_file_dtype_changed', 'own_file_scaling_changed'):
-                chk.known('S-C09c', S_C09C)
-                chk.tagc('known:S-C09c:' + what)
-            else:
-                fails.append(f'step {kp} ({ops[kp]}): {what}')
+        for kp, what, sig in r['pred']:     # (S-C09c, once classified here by its signature, is fixed: 29b7b6ce)
+            fails.append(f'step {kp} ({ops[kp]}): {what}' + (f' [{sig}]' if sig != '-' else ''))
         bad_other = [t for t in itoks if t.startswith('ref:other') or t.startswith('died:')]
         if fails and tag not in UNMODELLED:
             pv.append((case, itoks, mtoks, '; '.join(fails)))
@@ -615,14 +606,12 @@ def run(chk: Check):
                       'any violation found', found_input=False)
     chk.extra['unproved_statements'] = [
         'C09_no_crash (full statement: no step of any history crashes) is FALSE of the faithful model: '
-        'C09_no_crash_refuted (S-C09b); proved instead: C09_save_never_crashes (all histories) and '
-        'C09_no_crash_partial (histories in which no save shortens a file under a live cached map)',
-        'C09_image_usable_after_save (full) is FALSE: C09_usable_refuted (S-C09c: dtype changed, or scale factors '
-        're-computed, on the image\'s own file); proved: C09_usable_partial. A repair is prepared '
-        '(.work/fix_S-C09c.patch, not yet in /repo): once it lands the model re-points the image and the statement '
-        'becomes a full theorem',
+        'C09_no_crash_refuted (S-C09b: a cached memory map of a file that ANOTHER image object later shortens); '
+        'proved instead: C09_save_never_crashes (all histories) and C09_no_crash_partial (histories in which no save '
+        'shortens a file under a live cached map)',
         'C09_files_decode: the file holds written(g, fmt, dtype, v): it decodes to v except when MGH (no scaling) clips '
-        'data of both signs to uint8 (lemma written_val); integer quantisation itself is C02\'s subject']
+        'data of both signs to uint8 (lemma written_val); integer quantisation itself is C02\'s subject; C09_usable '
+        'carries the same exclusion and the side conditions names_wf / classes_ok (invariant of every run)']
 
     # ---- vm cross-check of the extracted binary on a small fixed sample
     pairs = []
